@@ -78,6 +78,9 @@ pub struct Case {
     /// judged has not
     #[serde(default)]
     pub prior_lax: bool,
+    /// see c15::SHORT_WRITES: the proxy connection accepts at most that many bytes per write call (0 = all)
+    #[serde(default)]
+    pub short_write: u8,
 }
 
 pub struct C12;
@@ -161,6 +164,8 @@ fn run_one(case: &Case, reply_events: Vec<Ev>, head_len: usize, head_complete: b
             .send();
         ctx.label("a-tunnelled-request-with-the-name-check-waived-was-sent-first");
     }
+    let _short = crate::transport::short_writes(crate::props::c15::short_write_bytes(case.short_write));
+    ctx.label_if(case.short_write != 0, "short-writing-transport");
     let logs = std::sync::Arc::new(std::sync::Mutex::new(vec![]));
     let logs2 = logs.clone();
     let ev = reply_events.clone();
@@ -412,15 +417,15 @@ Oracle P1-P5 over the ordered write/serve log. non-trivial = non-2xx with body >
             prop_oneof![3 => Just(Mode::Danger), 2 => (any::<bool>(), any::<bool>()).prop_map(|(present_proxy_cert, ip_origin)| Mode::Verify { present_proxy_cert, ip_origin })],
             0u8..3,
             0u8..4,
-            (prop::bool::weighted(0.25), any::<bool>(), prop::bool::weighted(0.3)),
+            (prop::bool::weighted(0.25), any::<bool>(), prop::bool::weighted(0.3), crate::props::c15::short_write_strategy()),
         )
-            .prop_map(|(origin_host, origin_port, proxy, mut reply, seg, seed, mode, auth, declare, (via_redirect, session, prior_lax))| {
+            .prop_map(|(origin_host, origin_port, proxy, mut reply, seg, seed, mode, auth, declare, (via_redirect, session, prior_lax, short_write))| {
                 reply.declare = declare;
                 // a 2xx reply never carries a body here (bytes after the head would be fed to TLS); keep the head intact half of the time
                 if (200..300).contains(&reply.status) {
                     reply.body = ReplyBody::None;
                 }
-                Case { origin_host, origin_port, proxy, reply, seg, seed, mode, auth, via_redirect, session, prior_lax }
+                Case { origin_host, origin_port, proxy, reply, seg, seed, mode, auth, via_redirect, session, prior_lax, short_write }
             })
             .boxed()
     }
